@@ -455,11 +455,8 @@ def run(ctx, rep, tier="quick"):
     # (mode, metric) -> (other mode, -metric) only if no NaN takes part in it (an ascending sort and a reversed sort place an
     # incomparable key differently) - the NaN-filter rules of C05-S4 / S5 are taken over, relabelled
     from . import c05 as _c05
-    sub = type(rep)(rep.prop)
-    _c05.s4_s5(ctx, sub)
-    for i in sub.items:
-        i.clause = "S2"
-        rep.items.append(i)
+    from .common import take_over
+    take_over(ctx, rep, _c05.s4_s5, "S2")
     n_sign = 0
     per_func = {}
     _SPEC.clear()
